@@ -3,7 +3,7 @@
    Z, N, positive, nat stay the extracted inductive types.  No Extract Constant
    or Extract Inductive of our own. *)
 From Coq Require Import ExtrOcamlBasic.
-From Model Require Import Base Uni Notation Utf8 Inputrc HistFile Dispatch Editor Grid.
+From Model Require Import Base Uni Notation Utf8 Inputrc HistFile Dispatch Editor Grid Macro.
 From Gen Require Import Binds.
 Extraction "rlmodel_core.ml"
   dom escape unescape unescape_range convert_meta quote
@@ -11,4 +11,5 @@ Extraction "rlmodel_core.ml"
   trim_space open_hist write crash_write
   match_bind loop init_state probe_exec
   run_one ed_init cur_undo ring_top modelled_commands sources_accept ed_exec default_binds effective_binds
-  run_selects fresh_group.
+  run_selects fresh_group
+  m_init mstep fed_bytes.
